@@ -30,6 +30,12 @@ type Config struct {
 	// Heavy functions: all states reaching a call to one are joined into a single state first
 	// (bounds the number of times an expensive callee is interpreted; sound, loses path facts).
 	Heavy func(fn *ssa.Function) bool
+	// OnExternalCall is invoked for every call to a function without a module body (after argument evaluation).
+	OnExternalCall func(site ssa.Instruction, name string, args []Value, h *Heap)
+	// ZeroInit: integer arrays of at most this many elements start with known zero elements (0 = not tracked).
+	ZeroInit int64
+	// OnCall is invoked for every resolved call (module or external) after argument evaluation.
+	OnCall func(site ssa.Instruction, callee *ssa.Function, args []Value, h *Heap)
 	// JoinAtCall: states are joined before calling these, but the callee itself keeps the normal state bound.
 	JoinAtCall func(fn *ssa.Function) bool
 	// Modular functions are verified once for arbitrary arguments (as their own root) and are
@@ -606,6 +612,12 @@ func (in *Interp) joinValueH(a, b Value, t types.Type, ha, hb *Heap, pend *[]Lin
 			}
 			if va.Reg == vb.Reg && va.Off.Equal(vb.Off) {
 				rs.Off = va.Off
+				res = rs
+			}
+			if va.Reg == vb.Reg && va.Off.Add(va.Cap).Equal(vb.Off.Add(vb.Cap)) {
+				// both windows end at the same place of the backing array (reslicing keeps off+cap)
+				rs.Cap = va.Off.Add(va.Cap).Sub(rs.Off)
+				*pend = append(*pend, rs.Cap.Sub(rs.Len))
 				res = rs
 			}
 			if !va.MaybeNil && !vb.MaybeNil {
@@ -1555,6 +1567,13 @@ func (x *fnExec) evalInstr(s *State, v ssa.Value) []*State {
 		if arr, ok := elem.Underlying().(*types.Array); ok {
 			r := in.newRegion("array:"+t.Comment, false)
 			r.Fresh = true
+			if in.Cfg.ZeroInit > 0 && arr.Len() <= in.Cfg.ZeroInit {
+				if b, ok := arr.Elem().Underlying().(*types.Basic); ok && b.Info()&types.IsInteger != 0 {
+					for i := int64(0); i < arr.Len(); i++ {
+						s.h.setKnown(r, i, Const(0))
+					}
+				}
+			}
 			return set(PtrV{Reg: r, ArrLen: arr.Len(), Nil: 2, T: t.Type()})
 		}
 		c := in.newCell(t.Comment, elem)
@@ -1622,6 +1641,15 @@ func (x *fnExec) evalInstr(s *State, v ssa.Value) []*State {
 		in.check(s, t, "makeslice", cp.Sub(ln), "make: len <= cap")
 		r := in.newRegion("make", false)
 		r.Fresh = true
+		if n, ok := ln.ConstVal(); ok && in.Cfg.ZeroInit > 0 && n <= in.Cfg.ZeroInit {
+			if st, ok := t.Type().Underlying().(*types.Slice); ok {
+				if b, ok := st.Elem().Underlying().(*types.Basic); ok && b.Info()&types.IsInteger != 0 {
+					for i := int64(0); i < n; i++ {
+						s.h.setKnown(r, i, Const(0))
+					}
+				}
+			}
+		}
 		return set(SliceV{Reg: r, Len: ln, Cap: cp})
 	case *ssa.Next:
 		return set(in.unknownOf(t.Type(), "next", false))
